@@ -92,6 +92,7 @@ func init() {
 	c03 := []*ir.Profile{
 		{Name: "c03-multi", MinSteps: 1, MaxSteps: 5, Durs: someDurs, Modes: allBad, PBad: 35, PDeployFail: 15, PDisabled: 25, PWaitFor: 30, MaxOutputs: 3, PErrPathRef: 15, DeepExpr: true},
 		{Name: "c03-errout", MinSteps: 1, MaxSteps: 4, Durs: someDurs, Modes: []string{"err", "crash", "panic"}, PBad: 60, PDeployFail: 25, PDisabled: 30, ErrOutput: true, MaxOutputs: 3},
+		{Name: "c03-tags", MinSteps: 2, MaxSteps: 4, Durs: someDurs, Tags: true, Modes: []string{"err", "crash"}, PBad: 30, PDisabled: 30, PDeployFail: 10, MaxOutputs: 2, ErrOutput: true},
 		{Name: "c03-plain", MinSteps: 2, MaxSteps: 6, Durs: someDurs, PWaitFor: 50, PDeploySlow: 40, MaxOutputs: 2, DeepExpr: true},
 	}
 	register(&PropDef{ID: "C03",
